@@ -37,6 +37,26 @@ type c13Site struct {
 	need                        int // index/slice: the length the operand must have at least (0 = not a constant need)
 }
 
+// string constants of the package under census (name -> length), so that len(cPrefix) counts as a literal
+var c13ConstLen = map[string]int{}
+
+// c13LitX: an integer literal, or len(C) for a string constant C of the package
+func c13LitX(e ast.Expr) (int64, bool) {
+	if k, ok := c13Lit(e); ok {
+		return k, true
+	}
+	if ce, ok := c13Unparen(e).(*ast.CallExpr); ok && len(ce.Args) == 1 {
+		if id, ok := ce.Fun.(*ast.Ident); ok && id.Name == "len" {
+			if a, ok := c13Unparen(ce.Args[0]).(*ast.Ident); ok {
+				if n, ok := c13ConstLen[a.Name]; ok {
+					return int64(n), true
+				}
+			}
+		}
+	}
+	return 0, false
+}
+
 func c13Src(n ast.Node) string {
 	var b bytes.Buffer
 	printer.Fprint(&b, fset, n)
@@ -80,6 +100,9 @@ func c13Facts(cond ast.Expr, pos bool, out map[string]int) {
 			lenOf := func(a ast.Expr) (string, bool) {
 				if ce, ok := a.(*ast.CallExpr); ok && len(ce.Args) == 1 {
 					if id, ok := ce.Fun.(*ast.Ident); ok && id.Name == "len" {
+						if _, isConst := c13LitX(a); isConst {
+							return "", false
+						}
 						return c13Src(ce.Args[0]), true
 					}
 				}
@@ -108,10 +131,10 @@ func c13Facts(cond ast.Expr, pos bool, out map[string]int) {
 				}
 			}
 			if lx, ok := lenOf(x); ok {
-				if _, isLit := c13Lit(y); !isLit && op == token.GTR {
+				if _, isLit := c13LitX(y); !isLit && op == token.GTR {
 					out["bound:"+c13Src(y)+"<"+lx] = 1 // len(X) > i
 				}
-				if n, ok := c13Lit(y); ok {
+				if n, ok := c13LitX(y); ok {
 					switch op {
 					case token.GTR:
 						set(lx, n+1)
@@ -125,7 +148,7 @@ func c13Facts(cond ast.Expr, pos bool, out map[string]int) {
 				}
 			}
 			if ly, ok := lenOf(y); ok {
-				if n, ok := c13Lit(x); ok {
+				if n, ok := c13LitX(x); ok {
 					switch op {
 					case token.LSS:
 						set(ly, n+1)
@@ -194,6 +217,17 @@ func c13FactsAt(path []ast.Node) map[string]int {
 				}
 			}
 		case *ast.CaseClause:
+			if i >= 2 && len(p.List) == 1 {
+				if sw, ok := path[i-2].(*ast.SwitchStmt); ok && sw.Tag == nil {
+					inBody := false
+					for _, st := range p.Body {
+						inBody = inBody || st == child
+					}
+					if inBody {
+						c13Facts(p.List[0], true, facts)
+					}
+				}
+			}
 			for _, st := range p.Body {
 				if st == child {
 					break
@@ -293,7 +327,7 @@ func c13NilSafe(fd *ast.FuncDecl, methods map[string][]*ast.FuncDecl, seen map[*
 }
 
 // c13RelPattern: see the use; returns the first-byte literal and the case literals of the switch over the last byte
-func c13RelPattern(fd *ast.FuncDecl, x string, before token.Pos) (int, []int, bool) {
+func c13RelPattern(fd *ast.FuncDecl, x string, before token.Pos, byName map[string][]*ast.FuncDecl, localDef map[string]ast.Expr, localN map[string]int) (int, []int, bool) {
 	charLit := func(e ast.Expr) (int, bool) {
 		if bl, ok := c13Unparen(e).(*ast.BasicLit); ok && bl.Kind == token.CHAR {
 			if v, _, _, err := strconv.UnquoteChar(bl.Value[1:len(bl.Value)-1], '\''); err == nil && v < 128 {
@@ -302,11 +336,66 @@ func c13RelPattern(fd *ast.FuncDecl, x string, before token.Pos) (int, []int, bo
 		}
 		return 0, false
 	}
+	// source text with single-assignment locals expanded (last := len(dt) - 1; dt[last])
+	var expand func(e ast.Expr, depth int) string
+	expand = func(e ast.Expr, depth int) string {
+		switch t := c13Unparen(e).(type) {
+		case *ast.Ident:
+			if d := localDef[t.Name]; d != nil && localN[t.Name] == 1 && depth < 3 {
+				return expand(d, depth+1)
+			}
+			return t.Name
+		case *ast.IndexExpr:
+			return expand(t.X, depth) + "[" + expand(t.Index, depth) + "]"
+		case *ast.BinaryExpr:
+			return expand(t.X, depth) + t.Op.String() + expand(t.Y, depth)
+		}
+		return strings.Replace(c13Src(e), " ", "", -1)
+	}
+	lastText := x + "[len(" + x + ")-1]"
+	// the cases of a switch over `tag` whose default (or the end of the function, for a helper returning a bool) leaves / says false
+	switchDims := func(sw *ast.SwitchStmt, helper bool) ([]int, bool) {
+		var dims []int
+		good, hasDefault := true, false
+		for _, c := range sw.Body.List {
+			cc := c.(*ast.CaseClause)
+			if cc.List == nil {
+				if helper {
+					rs, ok := cc.Body[len(cc.Body)-1].(*ast.ReturnStmt)
+					hasDefault = ok && len(rs.Results) > 0 && c13Src(rs.Results[len(rs.Results)-1]) == "false"
+					good = good && hasDefault
+				} else {
+					hasDefault = len(cc.Body) > 0 && c13Leaves(&ast.BlockStmt{List: cc.Body})
+				}
+				continue
+			}
+			for _, v := range cc.List {
+				if d, ok := charLit(v); ok {
+					dims = append(dims, d)
+				} else {
+					good = false
+				}
+			}
+			if helper {
+				// every accepted case must say true
+				if len(cc.Body) == 0 {
+					good = false
+					continue
+				}
+				rs, ok := cc.Body[len(cc.Body)-1].(*ast.ReturnStmt)
+				if !ok || len(rs.Results) == 0 || c13Src(rs.Results[len(rs.Results)-1]) != "true" {
+					good = false
+				}
+			}
+		}
+		return dims, good && (hasDefault || helper)
+	}
 	first, haveFirst := 0, false
 	lastVar := ""
 	var dims []int
 	haveSwitch := false
-	for _, st := range fd.Body.List {
+	stmts := fd.Body.List
+	for si, st := range stmts {
 		if st.Pos() >= before {
 			break
 		}
@@ -329,31 +418,52 @@ func c13RelPattern(fd *ast.FuncDecl, x string, before token.Pos) (int, []int, bo
 				return true
 			})
 		case *ast.AssignStmt:
-			if len(t.Lhs) == 1 && len(t.Rhs) == 1 && c13Src(t.Rhs[0]) == x+"[len("+x+")-1]" {
+			if len(t.Lhs) == 1 && len(t.Rhs) == 1 && expand(t.Rhs[0], 0) == lastText {
 				if id, ok := t.Lhs[0].(*ast.Ident); ok {
 					lastVar = id.Name
 				}
-			}
-		case *ast.SwitchStmt:
-			if t.Tag == nil || lastVar == "" || (c13Src(t.Tag) != lastVar && c13Src(t.Tag) != x+"[len("+x+")-1]") {
 				continue
 			}
-			good, hasDefault := true, false
-			for _, c := range t.Body.List {
-				cc := c.(*ast.CaseClause)
-				if cc.List == nil {
-					hasDefault = len(cc.Body) > 0 && c13Leaves(&ast.BlockStmt{List: cc.Body})
+			// _, ok := helper(lastVar); if !ok { return }  — the helper switches over its parameter
+			if len(t.Lhs) == 2 && len(t.Rhs) == 1 && lastVar != "" && si+1 < len(stmts) {
+				ce, isCall := t.Rhs[0].(*ast.CallExpr)
+				okv, isId := t.Lhs[1].(*ast.Ident)
+				if !isCall || !isId || len(ce.Args) != 1 || (c13Src(ce.Args[0]) != lastVar && expand(ce.Args[0], 0) != lastText) {
 					continue
 				}
-				for _, v := range cc.List {
-					if d, ok := charLit(v); ok {
-						dims = append(dims, d)
-					} else {
-						good = false
+				is, isIf := stmts[si+1].(*ast.IfStmt)
+				if !isIf || is.Else != nil || !c13Leaves(is.Body) || c13Src(c13Unparen(is.Cond)) != "!"+okv.Name {
+					continue
+				}
+				hs := byName[c13CallName(ce)]
+				if len(hs) != 1 || hs[0].Recv != nil || len(hs[0].Type.Params.List) != 1 || len(hs[0].Type.Params.List[0].Names) != 1 {
+					continue
+				}
+				h := hs[0]
+				pn := h.Type.Params.List[0].Names[0].Name
+				// the helper: a switch over its parameter, then `return …, false`
+				if len(h.Body.List) == 0 {
+					continue
+				}
+				endsFalse := false
+				if rs, ok := h.Body.List[len(h.Body.List)-1].(*ast.ReturnStmt); ok && len(rs.Results) > 0 && c13Src(rs.Results[len(rs.Results)-1]) == "false" {
+					endsFalse = true
+				}
+				for _, hst := range h.Body.List {
+					if sw, ok := hst.(*ast.SwitchStmt); ok && sw.Tag != nil && c13Src(sw.Tag) == pn {
+						if d, good := switchDims(sw, true); good && endsFalse {
+							dims, haveSwitch = d, true
+						}
 					}
 				}
 			}
-			haveSwitch = good && hasDefault
+		case *ast.SwitchStmt:
+			if t.Tag == nil || (lastVar == "" || c13Src(t.Tag) != lastVar) && expand(t.Tag, 0) != lastText {
+				continue
+			}
+			if d, good := switchDims(t, false); good {
+				dims, haveSwitch = d, true
+			}
 		}
 	}
 	if !haveFirst || !haveSwitch {
@@ -371,6 +481,7 @@ var (
 func c13Sites(l *leanFile) {
 	_ = l
 	relFirst, relDims, relFound = 0, nil, false
+	c13ConstLen = map[string]int{}
 	dir := "pkg/lql"
 	files, _ := filepath.Glob(filepath.Join(repo, dir, "*.go"))
 	sort.Strings(files)
@@ -390,6 +501,23 @@ func c13Sites(l *leanFile) {
 			continue
 		}
 		parsed = append(parsed, f)
+		for _, d := range f.Decls {
+			if gd, ok := d.(*ast.GenDecl); ok && gd.Tok == token.CONST {
+				for _, sp := range gd.Specs {
+					if vs, ok := sp.(*ast.ValueSpec); ok {
+						for i, nm := range vs.Names {
+							if i < len(vs.Values) {
+								if bl, ok := vs.Values[i].(*ast.BasicLit); ok && bl.Kind == token.STRING {
+									if v, err := strconv.Unquote(bl.Value); err == nil {
+										c13ConstLen[nm.Name] = len(v)
+									}
+								}
+							}
+						}
+					}
+				}
+			}
+		}
 		ast.Inspect(f, func(n ast.Node) bool {
 			if st, ok := n.(*ast.StructType); ok {
 				for _, fl := range st.Fields.List {
@@ -442,6 +570,7 @@ func c13Sites(l *leanFile) {
 		}
 		// local knowledge: range value variables, maps made here, variables holding library results
 		rangeVars, mapVars, submatchVars, lowerOf := map[string]bool{}, map[string]bool{}, map[string]bool{}, map[string]string{}
+		localDef, localN := map[string]ast.Expr{}, map[string]int{}     // locals assigned exactly once: expanded in index / slice bounds
 		rangeKeyOf, indexOf := map[string]string{}, map[string]string{} // i of `for i := range X`; v of `v := strings.Index…(X, …)`
 		ast.Inspect(fd.Body, func(n ast.Node) bool {
 			switch s := n.(type) {
@@ -453,6 +582,20 @@ func c13Sites(l *leanFile) {
 					rangeKeyOf[id.Name] = c13Src(s.X)
 				}
 			case *ast.AssignStmt:
+				if len(s.Lhs) == len(s.Rhs) {
+					for i, l := range s.Lhs {
+						if id, ok := l.(*ast.Ident); ok {
+							localDef[id.Name] = s.Rhs[i]
+							localN[id.Name]++
+						}
+					}
+				} else {
+					for _, l := range s.Lhs {
+						if id, ok := l.(*ast.Ident); ok {
+							localN[id.Name] += 2
+						}
+					}
+				}
 				if len(s.Lhs) == 1 && len(s.Rhs) == 1 {
 					id, ok := s.Lhs[0].(*ast.Ident)
 					if !ok {
@@ -492,11 +635,17 @@ func c13Sites(l *leanFile) {
 			sites = append(sites, c13Site{fileOf[fd], fname, kind, c13Src(n), guard, need})
 		}
 		// need of an index / slice bound expression relative to operand text x: constant k -> k(+1); len(x)-c -> c
-		needOf := func(e ast.Expr, x string, isIndex bool) (int, bool) {
+		var needOf func(e ast.Expr, x string, isIndex bool) (int, bool)
+		needOf = func(e ast.Expr, x string, isIndex bool) (int, bool) {
 			if e == nil {
 				return 0, true
 			}
-			if k, ok := c13Lit(e); ok && k >= 0 {
+			if id, ok := c13Unparen(e).(*ast.Ident); ok && localN[id.Name] == 1 && localDef[id.Name] != nil {
+				if _, self := c13Unparen(localDef[id.Name]).(*ast.Ident); !self {
+					return needOf(localDef[id.Name], x, isIndex)
+				}
+			}
+			if k, ok := c13LitX(e); ok && k >= 0 {
 				if isIndex {
 					return int(k) + 1, true
 				}
@@ -711,7 +860,7 @@ func c13Sites(l *leanFile) {
 				// X[1:len(X)-1] after `if len(X) == 0 || X[0] != c0 { return }` and `switch X[len(X)-1] { case c…: … default: return }`
 				// with c0 not among the cases: the last byte is not the first one, so len(X) >= 2 (Props.C13.rel_datetime_total)
 				if ok1 && ok2 && lo == 1 && hi == 1 {
-					if c0, dims, ok := c13RelPattern(fd, x, e.Pos()); ok {
+					if c0, dims, ok := c13RelPattern(fd, x, e.Pos(), byName, localDef, localN); ok {
 						relFirst, relDims, relFound = c0, dims, true
 						add("slice", e, "model:rel-datetime", 2)
 						return
